@@ -18,6 +18,7 @@ Lemma code_shape :
   (* fat tokens: (content, kind), hashed; Quote carries twin_loc, hashed; tkind covers every TokenKind *)
   fat_token_fields = ["content"; "kind"] /\ fat_token_derives_hash = true /\
   quote_fields = ["twin_loc"] /\ quote_derives_hash = true /\ token_kind_derives_hash = true /\
+  number_fields = ["value"; "suffix"; "radix"; "precision"] /\ number_derives_hash = true /\
   token_kind_variants = ["Word"; "Punctuation"; "Decade"; "Number"; "Space"; "Newline"; "EmailAddress"; "Url";
                          "Hostname"; "Unlintable"; "ParagraphBreak"; "Regexish"] /\
   (* the JSON key of the exported list *)
